@@ -65,7 +65,7 @@ def stage_b_blocks(ctx, res, stats, n_base):
     rng = ctx.rng(1)
     cases, impls, pairs = [], [], []
     for _ in range(n_base):
-        ts, info = bc.gen_diploid(rng)
+        ts, info = bc.gen_diploid(rng, big=(ctx.tier == "thorough"))
         if ts.num_edges == 0:
             continue
         unph, nind, mode = bc.mutilate_arrays(rng, ts)
@@ -92,6 +92,8 @@ def eval_b_blocks(res, stats, model, prepared):
         else:
             stats["hyp_wellformed_and_accepted"] += 1
             stats["hyp_insertion_index_injective"] += int(len(set(c["ins"].tolist())) == c["ins"].size)
+            cnt_nodes = np.bincount(c["nind"][c["nind"] >= 0], minlength=c["unph"].size)
+            stats["hyp_unphased_individuals_have_two_nodes"] += int(np.all(cnt_nodes[c["unph"]] == 2))
             stats["blocks"] += len(im[1])
             stats["blocked_mutations"] += sum(1 for b in im[4] if b != bc.NULL)
         if not bc.same_blocks(im, mo):
@@ -121,7 +123,7 @@ def stage_b_switch(ctx, res, stats, n):
     rng = ctx.rng(2)
     tails = []
     for _ in range(n):
-        ts, info = bc.gen_diploid(rng, gaps=0.0)
+        ts, info = bc.gen_diploid(rng, gaps=0.0, big=(ctx.tier == "thorough"))
         if ts.num_mutations == 0:
             continue
         phased = bool(rng.random() < 0.15)
@@ -211,23 +213,59 @@ def one_input(rng, res, stats, n_rephase):
                     kw={k: v for k, v in kw.items()}, returned=bool(r0["ok"])))
 
 
+def one_rejected_input(rng, res, stats):
+    """Inputs whose individuals are not (diploid, contemporary): singletons_phased=True must still leave every
+    node alone; singletons_phased=False is refused by block_singletons (recorded, not judged)."""
+    if rng.random() < 0.5:
+        ts, info = gen.sim_ts(rng, n=int(rng.integers(3, 8)), ploidy=1, muts_per_edge=3.0)
+        what = "haploid"
+    else:
+        ts, info = gen.sim_ts(rng, n=int(rng.integers(3, 6)), ploidy=2, historical=True, muts_per_edge=3.0)
+        what = "historical-diploid"
+    if ts.num_mutations == 0:
+        return
+    ts = bc.roundtrip(ts)
+    kw = bc.draw_date_kw(rng, info)
+    replay = dict(kind="date", ts=gen.ts_to_jsonable(ts), kw=kw)
+    res.evaluations += 1
+    r = bc.run_vg(ts, kw, True)
+    if r["ok"]:
+        for kind in bc.node_change_kinds(ts, r["out"], True):
+            res.violations.append(Violation(kind, f"{what} input, singletons_phased=True: an output mutation node differs from the input",
+                                            dict(replay, singletons_phased=True)))
+    r2 = bc.run_vg(ts, kw, False)
+    key = f"{what}:unphased:" + ("returned" if r2["ok"] else ("F5" if r2["f5"] else r2["exc"]))
+    stats["non_diploid_inputs"][key] = stats["non_diploid_inputs"].get(key, 0) + 1
+    if r2["ok"]:
+        for kind in bc.node_change_kinds(ts, r2["out"], False):
+            res.violations.append(Violation(kind, f"{what} input, singletons_phased=False: an output mutation left its individual",
+                                            dict(replay, singletons_phased=False)))
+
+
+def new_stats():
+    return dict(modes={}, fired={}, kernel_raised={}, fit_raised={}, date_raised={}, non_diploid_inputs={},
+                hyp_wellformed_and_accepted=0, hyp_insertion_index_injective=0, hyp_unphased_individuals_have_two_nodes=0,
+                blocks=0, blocked_mutations=0, switched_in_fits=0, switched_end_to_end=0, rephased_mutations=0)
+
+
 def run(ctx):
     res = Result()
     import tsdate  # noqa: F401
-    stats = dict(modes={}, fired={}, kernel_raised={}, fit_raised={}, date_raised={}, hyp_wellformed_and_accepted=0, hyp_insertion_index_injective=0,
-                 blocks=0, blocked_mutations=0, switched_in_fits=0, switched_end_to_end=0, rephased_mutations=0)
+    stats = new_stats()
     import time
     t0 = time.time()
-    text_b, prep_b = stage_b_blocks(ctx, res, stats, ctx.n(40, 1200))
-    text_t, prep_t = stage_b_switch(ctx, res, stats, ctx.n(20, 400))
+    text_b, prep_b = stage_b_blocks(ctx, res, stats, ctx.n(40, 700))
+    text_t, prep_t = stage_b_switch(ctx, res, stats, ctx.n(20, 300))
     t1 = time.time()
     model = bc.run_model(text_b + text_t)        # one driver start for all model cases of this run
     eval_b_blocks(res, stats, model, prep_b)
     eval_b_switch(res, stats, model, prep_t)
     t2 = time.time()
     rng = ctx.rng(3)
-    for _ in range(ctx.n(12, 250)):
+    for _ in range(ctx.n(12, 200)):
         one_input(rng, res, stats, n_rephase=2 if ctx.tier == "quick" else 4)
+    for _ in range(ctx.n(3, 40)):
+        one_rejected_input(rng, res, stats)
     stats["stage_seconds"] = dict(implementation_side_of_B=round(t1 - t0, 1), lean_driver=round(t2 - t1, 1),
                                   end_to_end=round(time.time() - t2, 1))
     res.rule = ("B: `_block_singletons` (numba) vs Lean model on arrays of diploid msprime tree sequences (gaps, twin "
@@ -242,8 +280,7 @@ def run(ctx):
 
 def search(ctx):
     res = Result()
-    stats = dict(modes={}, fired={}, kernel_raised={}, fit_raised={}, date_raised={}, hyp_wellformed_and_accepted=0, hyp_insertion_index_injective=0,
-                 blocks=0, blocked_mutations=0, switched_in_fits=0, switched_end_to_end=0, rephased_mutations=0)
+    stats = new_stats()
     rng = ctx.rng(4)
     for _ in range(ctx.n(6, 40)):
         one_input(rng, res, stats, n_rephase=3)
